@@ -5,6 +5,8 @@ import (
 	"bytes"
 	"time"
 
+	appsv1 "verif/fixtures/apps/v1"
+	corev1 "verif/fixtures/core/v1"
 	"verif/fixtures/vu"
 )
 
@@ -157,6 +159,16 @@ type Named struct {
 	D Dict
 	G Grid
 	E Emb
+}
+
+// K8s mixes types whose package NAME and type name coincide (apps/v1.Spec, core/v1.Spec).
+type K8s struct {
+	A  appsv1.Spec
+	C  corev1.Spec
+	PA *appsv1.Kind
+	PC *corev1.Kind
+	LA []appsv1.Spec
+	MC map[string]corev1.Spec
 }
 
 func (d *Deep) Hidden() int { return d.hidden }
